@@ -42,15 +42,15 @@ Section JReader.
   Definition jmu (st : jstate) : nat :=
     length (jbuf st) - jstart st + length (concat (jstream st)).
 
-  Lemma j_next_total : forall cap st, jinv st ->
-    jinv (fst (j_next precord false cap st)) /\
-    ok_outcome (snd (j_next precord false cap st)) /\
-    jmu (fst (j_next precord false cap st)) <= jmu st /\
-    (forall r, snd (j_next precord false cap st) = Ok (Some r) ->
-               jmu (fst (j_next precord false cap st)) < jmu st).
+  Lemma j_next_g_total : forall guard cap st, jinv st ->
+    jinv (fst (j_next_g precord false guard cap st)) /\
+    ok_outcome (snd (j_next_g precord false guard cap st)) /\
+    jmu (fst (j_next_g precord false guard cap st)) <= jmu st /\
+    (forall r, snd (j_next_g precord false guard cap st) = Ok (Some r) ->
+               jmu (fst (j_next_g precord false guard cap st)) < jmu st).
   Proof.
-    intros cap [buf0 start stream] [Hwf [Hle Heq]]. cbn [jstream jstart jbuf] in *.
-    unfold j_next. cbn [jstream jstart jbuf].
+    intros guard cap [buf0 start stream] [Hwf [Hle Heq]]. cbn [jstream jstart jbuf] in *.
+    unfold j_next_g. cbn [jstream jstart jbuf].
     pose proof (read_until_bytes 62 stream Hwf) as F1.
     pose proof (read_until_wf 62 stream Hwf) as F2.
     pose proof (read_until_nil_eof 62 stream Hwf) as F3.
@@ -71,7 +71,8 @@ Section JReader.
     assert (exists bytes,
       (if length r =? 0
        then if start <=? length buf then Ok (skipn start buf) else Panic 31
-       else if start + length r <? length buf then Ok (firstn (length r + 1) (skipn start buf)) else Panic 32)
+       else if start + length r <? length buf then Ok (firstn (length r + 1) (skipn start buf))
+            else if guard then (if start <=? length buf then Ok (skipn start buf) else Panic 31) else Panic 32)
       = Ok bytes /\ length bytes <= length buf - start /\
       (s' <> [] -> length bytes = length buf - start -> exists Y, bytes = Y ++ [62%N])) as [bytes [ES [Lb P3]]].
     { destruct (length r =? 0) eqn:En.
@@ -127,6 +128,14 @@ Section JReader.
       repeat split; try exact I; try exact F2; try lia;
         try exact K; try (intros r0 _; lia).
   Qed.
+
+  Lemma j_next_total : forall cap st, jinv st ->
+    jinv (fst (j_next precord false cap st)) /\
+    ok_outcome (snd (j_next precord false cap st)) /\
+    jmu (fst (j_next precord false cap st)) <= jmu st /\
+    (forall r, snd (j_next precord false cap st) = Ok (Some r) ->
+               jmu (fst (j_next precord false cap st)) < jmu st).
+  Proof. exact (j_next_g_total GenIoAbc.gen_jaspar_slice_guard). Qed.
 
   (* Reader::new establishes the invariant *)
   Lemma j_new_total : forall s, wf_stream s ->
